@@ -479,6 +479,7 @@ FIXED_WITNESSES = {
     "D18": [Header(1, [Str("In/Out")]), Para([Str("x")]), Header(2, [Str(" pad ")]), Header(2, [Str("bs\\")]), Header(3, [Str("child")])],
     "D19": [Header(2, [Str("A")]), Header(3, [Str("B")]), Header(3, [Str("C")]), Header(1, [Str("D")]), Header(3, [Str("E")]), Header(3, [Str("F")])],
     "D21": [Header(1, [Str("A")]), {"t": "BulletList", "c": [[Para([Str("x")])]]}],
+    "D27": D27_WITNESS,
 }
 
 
@@ -512,9 +513,9 @@ def run(R, only=None):
     R.notes["guards"] = [
         "C15_outline/C15_content/C15_render_outline: generate bs = Ok card /\\ NoDup (spec_paths bs)  (no two headers with the same title under the same parent: D20)",
         "C15_dup_refuted witness: # A, a1, # B, # A, a2  -- a1 is lost",
-        "C15_generate_total_partial: Forall convertible bs /\\ starts_with_header bs; C15_generate_total_refuted witnesses: a paragraph with an inline "
-        "image whose title does not start with 'fig:' (D27), a new-layout table without header row (D28)",
-        "D18, D19, D21 are fixed in the tree under test (fix: commits); their former witnesses are theorems C15_slash_title_kept, C15_deep_first_siblings, C15_md_state_all",
+        "C15_generate_total_partial: Forall convertible bs /\\ starts_with_header bs; C15_generate_total_refuted witness: a new-layout table without header row (D28)",
+        "D18, D19, D21, D27 are fixed in the tree under test (fix: commits); their former witnesses are theorems C15_slash_title_kept, C15_deep_first_siblings, "
+        "C15_md_state_all, C15_inline_image_converts",
     ]
     R.notes["not_modelled"] = ["inline/block types outside Markup.v's constructors (Span, Math, Note, Cite, LineBlock, DefinitionList)",
                                "wcwidth display width of wide/zero-width/control characters inside table cells",
